@@ -166,10 +166,10 @@ func init() {
 		func() []Unit { return scUnits(2, "notify3", "notify3-back") })
 	clusterCheck("C09",
 		func() []Unit {
-			return scUnits(1, "verify-nonvoter", "verify3", "verify5-pair", "verify-stale-ack", "verify-deposed", "verify-addvoter")
+			return scUnits(1, "verify-nonvoter", "verify3", "verify5-pair", "verify-stale-ack", "verify-deposed", "verify-addvoter", "verify-demoted")
 		},
 		func() []Unit {
-			return scUnits(2, "verify-nonvoter", "verify3", "verify5-pair", "verify-stale-ack", "verify-deposed", "verify-addvoter")
+			return scUnits(2, "verify-nonvoter", "verify3", "verify5-pair", "verify-stale-ack", "verify-deposed", "verify-addvoter", "verify-demoted")
 		})
 	clusterCheck("C20",
 		func() []Unit {
